@@ -109,3 +109,11 @@ claim("C08",
       "ROLEQ.attitude_propagation against the exact values, plus seeded in-range runs up to 400 steps, 2O orbits, the series "
       "remainder bound and monotone improvement, and angular_velocities integrating back.",
       "TLA+ Integrator + TLC + exact replay (bigint/Fraction mirror for realistic step sizes)", "DESIGN.md section 5, C08")
+claim("C18",
+      "Metrics.tla expresses every metric through the rational C2(p,q) = cos^2(t/2) and checks, on all 110 592 triples of 2O in exact "
+      "integers, non-negativity, symmetry, sign invariance, zero-iff-same-rotation, left and right invariance, the trace form of "
+      "the chordal distance and the triangle inequality (integer angle table); TLC emits the pair table; the harness compares all "
+      "seven functions (single, swapped, negated, N-row) with the closed forms in t on 2O x 2O (exact angles), a rational grid and "
+      "thin pairs (1e-4 rad .. pi - 1e-4 rad via the bigint mirror), and checks bi-invariance and triangle inequalities on seeded "
+      "float triples.",
+      "TLA+ Metrics + TLC (exhaustive over 2O^3) + exact replay", "DESIGN.md section 5, C18")
